@@ -1,12 +1,12 @@
 SPECIFICATION Spec
 CONSTANTS
-  MaxN = 4
-  Templates <- TplC18r
-  Bundles <- Ca1Only
-  Ctxs <- Ample
+  MaxN = 2
+  Templates <- TplC17m
+  Bundles <- NoBundle
+  Ctxs <- Wide
   Reqs <- FullReq
-  Calls <- OneCall
-  Tries <- Three
+  Calls <- TwoCalls
+  Tries <- One
   Hists <- NoHist
   BackoffCfgs <- NoBoCfgs
   Attempts <- BoAttempts
